@@ -11,6 +11,7 @@ import (
 	"time"
 
 	"verif/harness/choice"
+	"verif/harness/props/c12"
 	"verif/harness/racelog"
 	"verif/harness/simsched"
 	"verif/harness/wproto"
@@ -96,7 +97,8 @@ func TestWorker(t *testing.T) {
 		c := &Case{Property: "C13", Engine: "simsched", Kind: kinds[i%len(kinds)]}
 		return c, choice.New(job.Seed, fmt.Sprint("c13-work-", i)), choice.New(job.Seed, fmt.Sprint("c13-sched-", i))
 	}
-	out.Watch(120 * time.Second)
+	c12.MaxBigCells = 84
+	out.Watch(300 * time.Second)
 	switch job.Mode {
 	case "replay":
 		for i, raw := range job.Cases {
